@@ -36,7 +36,7 @@ func (c *Ctx) pushFrame(s *State, fn *ssa.Function, args []Value, binds []Value)
 			fr.localIsAddr[fv.Name()] = true
 		}
 	}
-	if fc := c.eng.contracts.funcs[qualFnName(fn)]; fc != nil && !fc.Assumed && len(fc.Params) > 0 {
+	if fc := c.eng.contracts.funcs[qualFnName(fn)]; fc != nil && !fc.Assumed && len(fc.Params) > 0 && len(fc.Params) == len(fn.Params) {
 		fr.alias = map[string]string{}
 		for i, pn := range fc.Params {
 			if i < len(fn.Params) && pn != fn.Params[i].Name() {
